@@ -5,7 +5,8 @@ package main
 //
 //	enqueue        the tests in order: per-peer count > blockLimit, distance outside [-maxUncleDist, maxQueueDist], already queued
 //	loop           the notify case (count > hashLimit, already fetching, counter + append), the done case (forgetHash + forgetBlock),
-//	               what the timer case does for a hash that is due (forgetHash, then f.fetching[hash] = announce: is the counter raised?),
+//	               what the timer case does for a hash that is due (forgetHash, then f.fetching[hash] = announce: is the counter raised?
+//	               FeTimerCountsFetching = an increment of f.announces[announce.origin] follows that assignment in the same block),
 //	               the import pass at the head of the loop
 //	insert         the goroutine: deferred `f.done <- hash`, parent lookup, validateBlock, default case dropPeer(peer), insertChain
 //	forgetHash / forgetBlock   which counters they lower
@@ -107,6 +108,71 @@ func shapeLines(fset *token.FileSet, sts []ast.Stmt) []string {
 		}
 	}
 	return out
+}
+
+// feCountsFetching: does the timer case count the fetch it starts? True iff, in some block below `root`, the statement
+// `f.fetching[hash] = announce` is FOLLOWED in the same block (same statement list, so under the same conditions) by a statement that
+// raises exactly that announcer's counter by one: `f.announces[announce.origin]++`, `f.announces[announce.origin] += 1` or
+// `f.announces[announce.origin] = f.announces[announce.origin] + 1` — and no statement of `root` lowers or overwrites an f.announces
+// entry in any other way (the whole list is pinned by FeTimerDueShape as well).
+func feCountsFetching(fset *token.FileSet, root ast.Node) bool {
+	const ctr = "f.announces[announce.origin]"
+	raises := func(st ast.Stmt) bool {
+		switch y := st.(type) {
+		case *ast.IncDecStmt:
+			return y.Tok == token.INC && exprStr(fset, y.X) == ctr
+		case *ast.AssignStmt:
+			if len(y.Lhs) != 1 || len(y.Rhs) != 1 || exprStr(fset, y.Lhs[0]) != ctr {
+				return false
+			}
+			r := strings.ReplaceAll(exprStr(fset, y.Rhs[0]), " ", "")
+			return (y.Tok == token.ADD_ASSIGN && r == "1") || (y.Tok == token.ASSIGN && (r == ctr+"+1" || r == "1+"+ctr))
+		}
+		return false
+	}
+	touches := func(st ast.Stmt) bool { // any write to an entry of f.announces
+		switch y := st.(type) {
+		case *ast.IncDecStmt:
+			return strings.HasPrefix(exprStr(fset, y.X), "f.announces[")
+		case *ast.AssignStmt:
+			for _, l := range y.Lhs {
+				if strings.HasPrefix(exprStr(fset, l), "f.announces[") {
+					return true
+				}
+			}
+		case *ast.ExprStmt:
+			return strings.HasPrefix(exprStr(fset, y.X), "delete(f.announces,")
+		}
+		return false
+	}
+	found, writes := false, 0
+	ast.Inspect(root, func(k ast.Node) bool {
+		if st, ok := k.(ast.Stmt); ok && touches(st) {
+			writes++
+		}
+		b, ok := k.(*ast.BlockStmt)
+		if !ok {
+			return true
+		}
+		for i, st := range b.List {
+			as, ok := st.(*ast.AssignStmt)
+			if !ok || as.Tok != token.ASSIGN || len(as.Lhs) != 1 || len(as.Rhs) != 1 ||
+				exprStr(fset, as.Lhs[0]) != "f.fetching[hash]" || exprStr(fset, as.Rhs[0]) != "announce" {
+				continue
+			}
+			n := 0
+			for _, later := range b.List[i+1:] {
+				if raises(later) {
+					n++
+				}
+			}
+			if n == 1 {
+				found = true
+			}
+		}
+		return true
+	})
+	return found && writes == 1
 }
 
 func init() {
@@ -225,19 +291,7 @@ func init() {
 					ast.Inspect(&ast.BlockStmt{List: x.Body}, func(m ast.Node) bool {
 						if is, ok := m.(*ast.IfStmt); ok && strings.Contains(exprStr(fset, is.Cond), "arriveTimeout") {
 							timerDue = shapeLines(fset, []ast.Stmt{is})
-							ast.Inspect(is, func(k ast.Node) bool {
-								switch y := k.(type) {
-								case *ast.IncDecStmt:
-									if strings.HasPrefix(exprStr(fset, y.X), "f.announces[") && y.Tok == token.INC {
-										countsFetching = true
-									}
-								case *ast.AssignStmt:
-									if len(y.Lhs) == 1 && strings.HasPrefix(exprStr(fset, y.Lhs[0]), "f.announces[") {
-										countsFetching = true
-									}
-								}
-								return true
-							})
+							countsFetching = feCountsFetching(fset, is)
 						}
 						return true
 					})
@@ -250,7 +304,7 @@ func init() {
 		f.strList("FeInjectCaseShape", injectCase)
 		f.strList("FeDoneCaseShape", doneCase)
 		f.strList("FeTimerDueShape", timerDue)
-		f.raw("def FeTimerCountsFetching : Bool := %v   -- the timer case raises f.announces[...] when it moves an announcement to f.fetching\n", countsFetching)
+		f.raw("def FeTimerCountsFetching : Bool := %v   -- in the timer case `f.announces[announce.origin]++` follows `f.fetching[hash] = announce` in the same block (finding FGD1: it did not)\n", countsFetching)
 		// ---- peer.go: the known sets ---------------------------------------------------------------------------------------
 		var lruNew []string
 		ast.Inspect(pf, func(n ast.Node) bool {
